@@ -24,6 +24,8 @@ def run(ck):
     ck.undecided("physical adequacy of the condensation-heat formula (the property only asks for presence and iso/non-iso agreement); rounding")
     funcs = process_functions(repo)
     ck.floor("process functions", len(funcs), 4)
+    from ..purity import purity
+    purity(ck, repo, funcs + [repo.find_function("TemperatureProgram.program")])
     all_models = {}
     for func in funcs:
         ck.analysed_function(func)
@@ -204,8 +206,8 @@ def check_siblings(ck, repo, funcs, all_models):
             for pn in all_models[fn.qualname]:
                 if pn.meta["programme"] != "none":
                     continue
-                if (pi.meta["basis"], pi.meta["mode"], pi.meta["initial_permeances"]) != \
-                        (pn.meta["basis"], pn.meta["mode"], pn.meta["initial_permeances"]):
+                if (pi.meta["basis"], pi.meta["mode"], pi.meta["initial_permeances"], pi.meta.get("units")) != \
+                        (pn.meta["basis"], pn.meta["mode"], pn.meta["initial_permeances"], pn.meta.get("units")):
                     continue
                 if nonideal:
                     ti = [(poly.key_str(c), d) for c, d in pi.out.trace if "len(" in poly.key_str(c)]
